@@ -30,8 +30,9 @@ ASSUMPTIONS = [
     "VolumeMatrix: raw matrix read as A[i, d*j+a] = (dV_i/dr_ja)/V_i (central differences, step deltar), self block from translation "
     "invariance; compared with a scipy finite-difference oracle at 5e-5 (single-precision noise / (2 deltar)); the transformed matrix "
     "A^T (A A^T)^-1 A is only compared with itself (requested frame vs one-frame snapshots; file vs return): A A^T is singular in exact "
-    "arithmetic for a periodic box (sum_i V_i A_i = 0), so its value is noise-dominated; N = 2 is not generated with "
-    "transform_matrix=True (A vanishes identically by inversion symmetry and numpy raises 'Singular matrix')",
+    "arithmetic for a periodic box (sum_i V_i A_i = 0; for N = 2 A vanishes identically by inversion symmetry), so its value is "
+    "noise-dominated: only 'no exception', 'requested frame' (bit-for-bit) and 'file equals return' are demanded of it; zero row sums "
+    "are demanded of the raw matrix only",
     "np.save appends '.npy' to the output file name",
 ]
 
@@ -128,8 +129,6 @@ def gen_volmatrix(tier, seed):
                     frames = [frame(pts, sub, L, lo, seed, f, "vm") for f in range(F)]
                     for k in range(F):
                         for transform in (False, True):
-                            if transform and n == 2:
-                                continue
                             for save in (False, True):
                                 if save and (F == 3 or on in ("centred", "123")):
                                     continue
